@@ -8,6 +8,7 @@ import (
 	"io"
 	"os"
 	"os/exec"
+	"time"
 )
 
 // Lean is a running instance of the Lean model driver (bhsdriver).
@@ -43,10 +44,20 @@ func StartLean(path string) (*Lean, error) {
 	return &Lean{cmd: cmd, in: in, w: bufio.NewWriterSize(in, 1<<16), out: bufio.NewReaderSize(out, 1<<20)}, nil
 }
 
+// answerLimit bounds the wait for ONE answer line: a model driver that stops answering (or a protocol that lost
+// step) must end the run with an error, never hang it.
+const answerLimit = 10 * time.Minute
+
 func (l *Lean) readLine() (string, error) {
+	t := time.AfterFunc(answerLimit, func() {
+		if l.cmd != nil && l.cmd.Process != nil {
+			_ = l.cmd.Process.Kill()
+		}
+	})
 	s, err := l.out.ReadString('\n')
+	t.Stop()
 	if err != nil {
-		return "", fmt.Errorf("lean driver: %w", err)
+		return "", fmt.Errorf("lean driver gave no answer line (killed after %s without one, or exited): %w", answerLimit, err)
 	}
 	return s[:len(s)-1], nil
 }
